@@ -21,7 +21,7 @@ for (name, props, f, old, new) in mm.M:
     k = [p for p in props if r.get(p, {}).get('killed')]
     s = [p for p in props if p in r and not r[p]['killed']]
     out.append('| `%s` | `%s` | %s | %s |' % (name, f.replace('src/', ''), ' '.join(k) or '(not run)', ' '.join(s)))
-out.append('\nAll 30 are caught by the check of the property they were written against. The ones listed as not caught were\nextra checks tried against the same change: `c02_xor_ge_hd_returns_0_again` is outside C05\'s quantifier (>= hd erasures),\n`c05_data_table_bit` does not change any fragments_needed answer, `c15_decode_writes_input_header` writes a value the\nbyte already has (only the read-only page sees it).\n')
+out.append('\nAll 30 own mutants are caught by the check of the property they were written against. The ones listed as not caught were\nextra checks tried against the same change: `c02_xor_ge_hd_returns_0_again` is outside C05\'s quantifier (>= hd erasures),\n`c05_data_table_bit` does not change any fragments_needed answer, `c15_decode_writes_input_header` writes a value the\nbyte already has (only the read-only page sees it).\n')
 out.append('### 11.2 Independently seeded changes (`seeded/<id>/`)\n')
 out.append('Written by fresh sub-agents that saw only the property text and a scratch worktree (nothing from `/verif`). Each was\nconfirmed before it was kept: library builds, the repository suite passes (exit 0) with the change, the agent\'s\ndemonstration fails with the change and passes without it (`tools/import_seed.py`). Then `tools/mutants.py --seeded`.\n')
 out.append('| id | what it breaks / what it needs to manifest | caught by | tried, not caught |\n|---|---|---|---|')
@@ -30,10 +30,29 @@ for mp in sorted(glob.glob(os.path.join(VERIF, 'seeded', '*', 'meta.json'))):
     summ = m.get('summary') or m.get('breaks', '')[:200]
     summ = re.sub(r'\s+', ' ', summ).replace('|', '/')
     out.append('| %s | %s | %s | %s |' % (m['id'], summ, ' '.join(m.get('detected_by', [])), ' '.join(m.get('missed_by', []))))
-out.append('\nTwo seeds were first **missed** by the check of their own property and led to stronger checks:\n'
-           '* `C11-s1` (the legacy-CRC fallback reads the raw, unswapped stored checksum: only an intact opposite-endian fragment *written with the historical CRC* is misreported). C11 generated twins only from fragments written with the standard CRC. The generator now varies the writer and reader value of `LIBERASURECODE_WRITE_LEGACY_CRC` (and C12 varies the writer).\n'
-           '* `C15-s1` (flat-XOR three-data decode XORs Q into the caller\'s parity P in place and restores it afterwards: invisible to a before/after comparison, needs hd=4, a triple without singly-connected parity, 16-byte aligned inputs and a read-only mapping). C15 placed inputs on guard pages only for <= 2 erasures at the end of a history. It now also sweeps every flat-XOR table x every erasure set below hd (and every RS/ISA-L shape with |E|=m) with aligned inputs ending exactly at the guard page, start-flush, and unaligned; history tails use up to `tolerance` erasures.\n'
-           'Entries under "tried, not caught" are other properties\' checks run against the same change out of curiosity.\n')
+out.append("""
+Seven of the 30 seeds were first **missed** by the check of their own property; each led to a stronger check (all 30 are
+caught now, and the unchanged tree still passes):
+* `C11-s1` - C11 built twins only from fragments written with the standard CRC. The generator now varies the writer and
+  reader value of `LIBERASURECODE_WRITE_LEGACY_CRC` (C12 varies the writer as well).
+* `C15-s1` - C15 used guard pages only for <= 2 erasures at the end of a history. It now also sweeps every flat-XOR table x
+  every erasure set below hd (and every RS/ISA-L shape with |E|=m) with aligned inputs ending exactly at the guard
+  page, start-flush, and unaligned; history tails use up to `tolerance` erasures.
+* `C13-s2` - dead descriptors were only produced on the calling thread. C13's grid has a new descriptor class "looked up
+  here, destroyed by another (joined) thread", and the C14/C16 history interpreter a step `xdestroy` doing the same.
+* `C16-s2` - histories never produced valid fragments that disagree on `orig_data_size` (a documented -EBADHEADER
+  path). New step `size_lie`: re-sealed small length deltas on 1-2 fragments, decode with and without forced checks;
+  only memory safety and leak freedom are demanded for it.
+* `C17-s2` - faults were only *injected* through the operation tables, which bypasses the back end's own failure
+  paths. The C17 workload now also contains naturally failing rebuilds (flat-XOR with hd..hd+1 fragments lost, every lost
+  index as destination) under the per-case LeakSanitizer check.
+* `C18-s2` - concurrent decodes lost only one fragment. The TSan workloads now draw erasure sets up to the tolerance and,
+  for flat-XOR hd=4, the all-data triples that no parity isolates (computed from the golden equations); a scenario in
+  which every thread decodes through one shared hd=4 descriptor is generated in a quarter of the cases.
+* `C20-s2` - every C20 case used fresh buffers. A third of the cases now validate fragments in place first, then damage
+  (or heal) the *same* buffers before `decode(force=1)`.
+Entries under "tried, not caught" are other properties' checks run against the same change out of curiosity.
+""")
 s = open(os.path.join(VERIF, 'DESIGN.md')).read()
 if '\n## 11. Sensitivity' in s:
     s = s[:s.index('\n## 11. Sensitivity')]
